@@ -282,6 +282,8 @@ def check(pid, tier):
             result[k] = result.get(k) or {}
         # proofs
         targets = [f[:-2] + ".vo" for f in cfg["proof_files"] if f.startswith("Properties/")]
+        # the executable models the generated cases import must be current too
+        targets += [f[:-2] + ".vo" for f in cfg.get("model_files", []) if f[:-2] + ".vo" not in targets]
         mrc, mout = coq_make(targets, timeout=cfg.get("make_timeout", 3000))
         open(os.path.join(workdir, "make.log"), "w").write(mout)
         bad_words = forbidden_scan()
